@@ -274,6 +274,63 @@ def structure_check(gv, units, ents, open_sites):
     return out, half
 
 
+COQ_KIND = {"pkg": "KDesignPackage", "upkg": "KDesignUninstPackage", "design": "KDesignOther", "conc": "KConcurrent",
+            "seq": "KSequential", "loop": "KLoopParameter", "elem": "KElementDeclaration", "enum": "KEnumLiteral",
+            "isub": "KInterfaceSubprogram", "sdecl": "KSubprogramDecl", "over": "KOverloadedOther", "obj": "(KObject false)",
+            "iobj": "(KObject true)", "comp": "KComponent", "prot": "KTypeProtected", "type": "KTypeOther", "other": "KOther"}
+
+
+def coq_cross_check(res, sample):
+    """Evaluates find_unused_declarations inside Coq (vm_compute) on sampled constructed groups and compares with the
+    oracle (which the extracted runner has been compared with already)."""
+    if not sample:
+        return
+    defs, cases = [], []
+    for n, (gv, exp) in enumerate(sample):
+        order, seen = [], set()
+
+        def visit(i):
+            if i in seen or i not in gv.decls:
+                return
+            seen.add(i)
+            d = gv.decls[i]
+            if d["parent"] is not None:
+                visit(d["parent"])
+            if d["declby"] is not None:
+                visit(d["declby"])
+            order.append(i)
+        for i in sorted(gv.decls):
+            visit(i)
+        nm = lambda i: "e%d_%d" % (n, i)
+        for i in order:
+            d = gv.decls[i]
+            par = "(Some %s)" % nm(d["parent"]) if d["parent"] is not None and d["parent"] in gv.decls else "None"
+            rel = "(DeclaredBy %s)" % nm(d["declby"]) if d["declby"] is not None else "RelNone"
+            defs.append("Definition %s := Ent %d %s %s %s (Some %d)." % (nm(i), gv.num(i), COQ_KIND[d["kind"]], par, rel, gv.num(i)))
+        per_file = collections.defaultdict(list)
+        for i, d in gv.decls.items():
+            per_file[d["file"]].append((d["line"], d["col"], "EvDecl (Some %s)" % nm(i)))
+        for r in gv.refs:
+            if r["id"] in gv.decls:
+                per_file[r["file"]].append((r["line"], r["col"], "EvRef (Some %s)" % nm(r["id"])))
+        units = ["[" + "; ".join(e[2] for e in sorted(per_file[f])) + "]" for f in gv.files if per_file.get(f)]
+        if not units:
+            continue
+        cases.append("({| primary := Some %s; secondaries := [%s] |}, [%s])" % (units[0], "; ".join(units[1:]), "; ".join(str(x) for x in exp)))
+    pre = ("From Coq Require Import List NArith Bool.\nImport ListNotations.\nFrom RH Require Import Lint.DeadCode.\nOpen Scope N_scope.\n"
+           + "\n".join(defs) + "\n"
+           "Definition subset (a b : list N) : bool := forallb (fun x => existsb (N.eqb x) b) a.\n"
+           "Definition cases : list (group * list N) := [\n" + ";\n".join(cases) + "].\n")
+    body = ("forallb (fun c => let got := map eid (find_unused_declarations (fst c)) in "
+            "subset got (snd c) && subset (snd c) got && wf_events_b (group_events (fst c))) cases")
+    v, log = coq_eval_bool(PROP, "sample", pre, body)
+    res.coverage["in_coq_vm_compute_cases"] = len(cases)
+    if v is not True:
+        res.violation("in-Coq evaluation (vm_compute) of find_unused_declarations on sampled constructed groups differs from the oracle / extracted runner",
+                      {"kind": "correspondence", "correspondence": "extraction vs vm_compute (RH.Lint.DeadCode.find_unused_declarations)",
+                       "log": log[-2000:]}, no_failing_input=True)
+
+
 def parse_model_line(line):
     tag, rest = line.rstrip("\n").split("|", 1)
     steps = []
@@ -425,8 +482,11 @@ def evaluate(res0, tag, projects_path, out_path, mbin, d, stats, open_kf):
                 if len(res.samples) < 4 and gv.decls:
                     res.add_sample({"group": gv.gid, "lib": gv.lib, "step": st["what"], "third_party": third,
                                     "declarations": len(gv.decls), "expected_unused": sorted(gv.decls[i]["name"] for i in exp)[:12]})
-                for s_ in gv.refs:
-                    stats["site:" + s_["site"]] += 0
+                for root_, ss_ in sites.items():
+                    if len(ss_) == 1 and gv.decls[root_]["elig"]:
+                        stats["sole:" + ss_[0]] += 1
+                if len(stats["coq_sample"]) < 60 and 0 < len(gv.decls) <= 90 and (stats["groups"] % 7 == 0 or len(gv.decls) < 25):
+                    stats["coq_sample"].append((gv, sorted(gv.num(i) for i in exp)))
                 # -- property-level oracle -------------------------------------------------------------
                 want = set() if third else exp
                 extra = [i for i in got if i not in want]
@@ -537,6 +597,7 @@ def main(tier, replay=None):
             open_kf[e["match"]["site_kind"]] = {"entry": e, "hits": 0, "example": None}
     stats = collections.Counter()
     stats["invalid_examples"] = []
+    stats["coq_sample"] = []
     work = os.path.join(d, "work")
 
     def stream(tag, projects_path):
@@ -557,24 +618,28 @@ def main(tier, replay=None):
         corpus = os.path.join(VERIF, "corpus", "C19.cases")
         if os.path.exists(corpus):
             stream("corpus", corpus)
-        nproj, gpp = (14, 24) if tier == "quick" else (260, 24)
-        gen_path = os.path.join(d, "gen.jsonl")
-        rc, out = run([hbin, "gen", str(seed()), str(nproj), str(gpp), gen_path], timeout=600)
-        if rc != 0:
-            res.violation("harness c19 gen failed", {"kind": "harness", "log": out[-2000:]}, no_failing_input=True)
-        else:
+        chunks, per_chunk, gpp = (1, 14, 24) if tier == "quick" else (20, 14, 24)
+        site_counts = collections.Counter()
+        for ch in range(chunks):
+            gen_path = os.path.join(d, "gen.jsonl")
+            rc, out = run([hbin, "gen", str(seed()), str(ch * per_chunk), str(per_chunk), str(gpp), gen_path], timeout=600)
+            if rc != 0:
+                res.violation("harness c19 gen failed", {"kind": "harness", "log": out[-2000:]}, no_failing_input=True)
+                break
             stream("gen", gen_path)
-            site_counts = collections.Counter()
             for l in open(gen_path):
                 for g in json.loads(l)["groups"]:
                     site_counts.update(g.get("sites", []))
-            res.coverage["reference_site_kinds"] = dict(sorted(site_counts.items()))
+            if len(res.violations) >= 12:
+                break
+        res.coverage["reference_site_kinds"] = dict(sorted(site_counts.items()))
     # known findings
     for s, info in open_kf.items():
         if info["hits"]:
             e = info["entry"]
             res.known_finding("%s id=%s site_kind=%s reproduced %d times, e.g. %s" % (
                 e.get("open", "open: property=C19"), e.get("id"), s, info["hits"], info["example"]))
+    coq_cross_check(res, stats.pop("coq_sample"))
     invalid_examples = stats.pop("invalid_examples")
     groups = max(1, stats["groups"])
     if stats["invalid_groups"] * 50 > groups:
@@ -585,7 +650,8 @@ def main(tier, replay=None):
         for v in ("verdict_reported", "verdict_used", "verdict_ineligible", "third_party_groups", "ordinary_groups"):
             if stats[v] == 0:
                 res.violation("non-triviality: no case with %s" % v, {"kind": "harness"}, no_failing_input=True)
-    res.coverage["distribution"] = {k: v for k, v in sorted(stats.items()) if not k.startswith("site:")}
+    res.coverage["distribution"] = {k: v for k, v in sorted(stats.items()) if not k.startswith("sole:")}
+    res.coverage["site_kinds_exercised_as_sole_reference"] = {k[5:]: v for k, v in sorted(stats.items()) if k.startswith("sole:")}
     res.coverage["invalid_examples"] = invalid_examples
     res.coverage["exhaustive"] = False
     res.coverage["rule"] = (
